@@ -133,6 +133,90 @@ def mviews_strided():
                       "format": fmt.lstrip("@<="), "ro": 1 if mv.readonly else 0, "madero": 0, "vals": vals, "elems": elems, "stable": 1, "strided": cname + "." + comp})
 
 
+def mviews_strided_vectors():
+    """Strided VECTOR arrays: Box3fArray(n).max is a V3fArray of stride 2 sharing the box array's memory; its export has
+    shape (n, 3) like any V3fArray."""
+    for cname, w in (("Box3fArray", 3), ("Box3dArray", 3), ("Box2fArray", 2), ("Box2dArray", 2), ("Box3iArray", 3), ("Box2iArray", 2)):
+        cls = lookup(cname)
+        if cls is None:
+            continue
+        for n in (1, 2, 4):
+            for comp in ("min", "max"):
+                a = cls(n)
+                try:
+                    c = getattr(a, comp)
+                    for i in range(n):
+                        c[i] = elem(type(c).__name__, 10 * i + (1 if comp == "min" else 5))
+                    mv = memoryview(c)
+                except (AttributeError, TypeError):
+                    continue
+                except BaseException:  # noqa
+                    emit({"e": "mview", "cls": type(c).__name__, "n": n, "exc": 1, "w": w, "strided": cname + "." + comp})
+                    continue
+                elems = [[ival(x) for x in comps(c[i])] for i in range(n)]
+                fmt = mv.format
+                isz = mv.itemsize
+                try:
+                    raw = mv.tobytes()
+                    cnt = len(raw) // isz if isz else 0
+                    vals = [ival(x) for x in struct.unpack("@%d%s" % (cnt, fmt.lstrip("@<=")), raw[: cnt * isz])]
+                except (struct.error, BaseException):  # noqa
+                    vals = [88888]
+                emit({"e": "mview", "cls": type(c).__name__, "n": n, "exc": 0, "w": w, "ndim": mv.ndim, "shape": list(mv.shape), "itemsize": isz, "nbytes": mv.nbytes,
+                      "format": fmt.lstrip("@<="), "ro": 1 if mv.readonly else 0, "madero": 0, "vals": vals, "elems": elems, "stable": 1, "strided": cname + "." + comp})
+
+
+def huge_indices():
+    """An integer index that does not fit the C index type (2**64, -2**64, 2**63) is out of range like any other: the access
+    raises and the array is left alone."""
+    for cname in ("IntArray", "FloatArray", "V3fArray", "StringArray", "IntArray2D", "VIntArray", "FloatMatrix"):
+        cls = lookup(cname)
+        if cls is None:
+            continue
+        for idx, label in ((2 ** 64, "2**64"), (-2 ** 64, "-2**64"), (2 ** 63, "2**63"), (2 ** 32, "2**32"), (2 ** 32 + 1, "2**32+1"), (-2 ** 63 - 1, "-2**63-1")):
+            for op in ("set", "get"):
+                try:
+                    if cname == "IntArray2D":
+                        a = cls(3, 3)
+                        snap = lambda: [a.item(x, y) for x in range(3) for y in range(3)]
+                        for x in range(3):
+                            for y in range(3):
+                                a[x, y] = 10 * x + y
+                        key, val = (idx, 0), 99
+                    elif cname == "VIntArray":
+                        sz = imath.IntArray(3)
+                        for i in range(3):
+                            sz[i] = 2
+                        a = cls(sz, 5)
+                        snap = lambda: [[a[i][j] for j in range(len(a[i]))] for i in range(len(a))]
+                        key, val = idx, imath.IntArray(2)
+                    elif cname == "FloatMatrix":
+                        a = cls(3, 2)
+                        for i in range(3):
+                            for j in range(2):
+                                a[i][j] = 10 * i + j
+                        snap = lambda: [[a[i][j] for j in range(2)] for i in range(3)]
+                        key, val = idx, 7.0
+                    else:
+                        a = cls(3)
+                        for i in range(3):
+                            a[i] = "s%d" % i if cname == "StringArray" else elem(cname, 10 * i + 1)
+                        snap = lambda: [str(a[i]) for i in range(3)]
+                        key, val = idx, ("zz" if cname == "StringArray" else elem(cname, 99))
+                except BaseException:  # noqa
+                    continue
+                before = snap()
+                exc = 0
+                try:
+                    if op == "set":
+                        a[key] = val
+                    else:
+                        a[key]
+                except BaseException:  # noqa
+                    exc = 1
+                emit({"e": "hugeidx", "cls": cname, "op": op, "idx": label, "exc": exc, "unchanged": 1 if snap() == before else 0})
+
+
 FROM = {"Int64ArrayFromBuffer": ("l", 1), "IntArrayFromBuffer": ("i", 1), "FloatArrayFromBuffer": ("f", 1), "DoubleArrayFromBuffer": ("d", 1),
         "V2iArrayFromBuffer": ("i", 2), "V2fArrayFromBuffer": ("f", 2), "V2dArrayFromBuffer": ("d", 2),
         "V3iArrayFromBuffer": ("i", 3), "V3fArrayFromBuffer": ("f", 3), "V3dArrayFromBuffer": ("d", 3),
@@ -636,6 +720,8 @@ def main():
     rnd = random.Random(seed)
     mviews()
     mviews_strided()
+    mviews_strided_vectors()
+    huge_indices()
     frombufs()
     arrays2d(rnd, thorough)
     arrays2d_sources(rnd, thorough)
